@@ -46,6 +46,12 @@ CHECKS = {
     text="Search, not proof. Every (fixture stream, static template, mode) with three option sets is enumerated; 0.5k (quick) to 20k (thorough) further cases over fixture and synthetic streams (irregular durations, styp/sidx layouts, non-zero first decode time) and option vectors.",
     note=SHIMS + ". Two open known findings (C06-K1 surplus $Number$ at the tail, C06-K2 moof-to-moof ranges pinned by a baseline test).",
     design_ref="DESIGN.md section 4, C06"),
+ "C10": dict(
+    engine="enumeration + hypothesis",
+    technique="enumerated (file, mode, DRM selection, PlayReady version) product; init-segment responses diffed box by box against the stored file by an independent reader; expected pssh set derived independently from the documented drm= syntax; WRMHEADER parsed with struct+lxml",
+    text="Search over a finite domain: all single-system selections are enumerated in both tiers; pairs/triples of systems with per-system location subsets are sampled in quick (2.5k) and enumerated completely in thorough (about 110k requests). Files: every fixture file plus synthetic clear/encrypted tracks (16-byte IV, styp/sidx layouts).",
+    note=SHIMS + ". Multi-period init route is exercised by C12.",
+    design_ref="DESIGN.md section 4, C10"),
 }
 
 _PENDING = "check under construction in this build round; not yet registered (see DESIGN.md section 9)"
